@@ -18,7 +18,9 @@
         ANY handler [handle] (recv_message) over ANY state [St] with phase
         projection [phase]; one rx_recv = one recv_raw(chunk);
      rx_log_recv                                 the same with the logging
-        handler (state = (_in_conn, frames acted on so far)).
+        handler (state = (_in_conn, frames acted on so far); _in_conn is set,
+        as in recv_message, by a contact header with magic "dtn!" and version 4:
+        contact_ok).
    The field layout in encode_msg/parse_msg is RFC 9174 sections 4.1, 4.7,
    5.1.1, 5.1.2, 5.2.2-5.2.5, 6.1.  The harness carries a second, independent
    decoder/encoder written with plain [struct] from the same RFC sections and
@@ -173,7 +175,7 @@ Print Assumptions C07_stream.
 
 Theorem C07_stream_log :
   forall (c : contact) (ms : list msg),
-    wf_contact c -> Forall wf_msg ms ->
+    wf_contact c -> contact_ok c = true -> Forall wf_msg ms ->
     rx_log_recv rx_init (concat (map encode_frame (FContact c :: map FMsg ms)))
     = ((true, FContact c :: map FMsg ms), []).
 Proof. exact rx_log_stream. Qed.
@@ -185,7 +187,7 @@ Print Assumptions C07_stream_log.
 Theorem C07_any_cut :
   forall (c : contact) (ms : list msg) (fs1 : list frame) (f : frame) (fs2 : list frame)
          (q q' : bytes) (chunks : list bytes),
-    wf_contact c -> Forall wf_msg ms ->
+    wf_contact c -> contact_ok c = true -> Forall wf_msg ms ->
     FContact c :: map FMsg ms = fs1 ++ f :: fs2 ->
     encode_frame f = q ++ q' -> q' <> [] ->
     concat chunks = concat (map encode_frame fs1) ++ q ->
@@ -196,7 +198,7 @@ Print Assumptions C07_any_cut.
 
 Theorem C07_any_cut_all :
   forall (c : contact) (ms : list msg) (chunks : list bytes),
-    wf_contact c -> Forall wf_msg ms ->
+    wf_contact c -> contact_ok c = true -> Forall wf_msg ms ->
     concat chunks = concat (map encode_frame (FContact c :: map FMsg ms)) ->
     fold_left rx_log_recv chunks rx_init = ((true, FContact c :: map FMsg ms), []).
 Proof. exact rx_log_any_cut_all. Qed.
@@ -208,13 +210,14 @@ Print Assumptions C07_any_cut_all.
    stream, and the model handles exactly these ten frames (example_msgs is
    spelled out in Proofs/TcpclMsgProofs.v) *)
 Example C07_stream_nonvacuous :
-  wf_contact (mkContact MAGIC 4 0) /\ Forall wf_msg example_msgs
+  wf_contact (mkContact MAGIC 4 0) /\ contact_ok (mkContact MAGIC 4 0) = true /\ Forall wf_msg example_msgs
   /\ length (concat (map encode_frame (FContact (mkContact MAGIC 4 0) :: map FMsg example_msgs))) = 167%nat
   /\ snd (fst (rx_log_recv rx_init (concat (map encode_frame (FContact (mkContact MAGIC 4 0) :: map FMsg example_msgs)))))
      = FContact (mkContact MAGIC 4 0) :: map FMsg example_msgs.
 Proof.
-  split; [|split; [|split]].
+  split; [|split; [|split; [|split]]].
   - repeat split; try reflexivity. repeat constructor.
+  - reflexivity.
   - apply wf_msgs_forallb. vm_compute. reflexivity.
   - vm_compute. reflexivity.
   - vm_compute. reflexivity.
